@@ -12,6 +12,9 @@ def jobs(tier, seed):
     for tid, src in F.c06_family(quick).items():
         for cfg in cfgs:
             J.append({"id": f"C06/G/source-semantics[{tid};{cfg}]", "fn": "vverif.contracts.source_sem:job_src", "args": ("c06." + tid, src, cfg), "functions": S.FUNCS + FUNCS, "engine": "GenVC"})
+    from vverif.contracts import abi_kernels as K
+
+    J.append({"id": "C06/F/abi-kernels.abi_sizes", "fn": "vverif.contracts.abi_kernels:job_abi_sizes", "args": (), "functions": K.FUNCS, "engine": "FinEx"})
     return J
 
 
@@ -29,6 +32,10 @@ FUNCS = {
 
 def replay(o):
     k = (o.get("replay") or {}).get("kind")
+    from vverif.contracts import abi_kernels as K
+
+    if k in K.REPLAY:
+        return K.REPLAY[k](o)
     if k in S.REPLAY:
         return S.REPLAY[k](o)
     return {"reproduced": None, "detail": "no native replay"}
